@@ -162,6 +162,60 @@ def status_strings(spec, req):
     return found
 
 
+def systematic_cases():
+    """a small exhaustive scope: every kind of output object (one level of nesting) x GET/HEAD x
+    wsgi.file_wrapper on/off x a status effect x three hook configurations"""
+    R = lambda st, body, err=False, ck=(): ('r', err, dict(status=st, headers=[], cookies=list(ck)), body)
+    outs = [('f', k) for k in zoo.FALSY] + [('t', 'hi'), ('t', 'é'), ('b', b'hi'), ('un', 'int'), ('un', 'object')]
+    nid = [1000]
+
+    def closable():
+        nid[0] += 1
+        return nid[0]
+    for hc in (False, True):
+        for hi in (False, True):
+            for content in (b'', b'hello'):
+                outs.append(('fl', closable(), hc, hi, content))
+    firsts = [[], [('t', 'a'), ('t', 'b')], [('b', b'a'), ('b', b'b')], [('ex',)], [('un', 'int')],
+              [('y', R(201, ('t', 'y')))], [('rr', R(404, ('t', 'r'), True))]]
+    for lead in (0, 2):
+        for f in firsts:
+            for hc in (False, True):
+                outs.append(('it', closable(), hc, [('e', None)] * lead + f, 'cls'))
+    outs += [('it', closable(), True, [('t', 'g1'), ('t', 'g2')], 'gen'), ('it', closable(), False, [('b', b'l')], 'list'),
+             ('it', closable(), False, [('t', 'k')], 'dict')]
+    simple = list(outs)
+    for st in (200, 204, 304, 418, 500):
+        outs.append(R(st, ('t', 'body')))
+        outs.append(R(st, ('t', 'ebody'), True))
+        outs.append(R(st, ('f', 'none'), True))
+    outs += [R(201, o, False, [('c', 'v')]) for o in simple[::3]]
+    hooks = [([], []), ([([('sh', 'X-B', '1')], ('ok',)), ([], ('ex',)), ([], ('ok',))], [([], ('ok',)), ([('ck', 'k', 'v')], ('ok',))]),
+             ([([], ('ok',))], [([], ('ok',)), ([], ('rr', R(302, ('t', 'moved')))), ([], ('ok',))])]
+    effs = [[], [('st', 204)], [('st', 102)], [('bh', 'X-A')]]
+    cases = []
+    for o in outs:
+        for method in ('GET', 'HEAD'):
+            for fw in (False, True):
+                if fw and o[0] != 'fl' and not (o[0] == 'r' and o[3][0] == 'fl'):
+                    continue
+                for ef in effs:
+                    for before, after in hooks:
+                        spec = dict(before=list(before), after=list(after), errh=[])
+                        req = dict(id=1, method=method, fw=fw, path_ok=True, tail='', query='',
+                                   route=('h', list(ef), ('ret', o)))
+                        cases.append((spec, req))
+    for route in (('nf',), ('na', ['GET', 'POST'])):
+        for method in ('PUT', 'HEAD') if route[0] == 'na' else ('GET', 'HEAD'):
+            if route[0] == 'na' and method == 'HEAD':
+                continue
+            for before, after in hooks:
+                for errh in ([], [(404, ('c', ('t', 'custom')))], [(405, ('ex',))], [(404, ('bd',))]):
+                    cases.append((dict(before=list(before), after=list(after), errh=list(errh)),
+                                  dict(id=1, method=method, fw=False, path_ok=True, tail='', query='', route=route)))
+    return cases
+
+
 class C03(Check):
     pid = 'C03'
     props_mod = 'OmbottModel.Props.C03'
@@ -201,7 +255,7 @@ class C03(Check):
     ]
 
     def budget(self, tier, escalated):
-        n = 6000 if tier == 'quick' else 60000
+        n = 6000 if tier == 'quick' else 250000
         return n * (3 if escalated and tier == 'quick' else 1)
 
     def nontrivial(self, sample):
@@ -213,15 +267,22 @@ class C03(Check):
         stats = self.stats = dict(cases=0, route={}, outcome={}, status={}, events={}, shape={}, head=0, fw=0,
                                   catchall=0, loops1000=0, setstatus=0)
         g = zoo.Gen(rng)
-        for i in range(n):
-            spec = g.app() if rng.random() < .6 else dict(before=[], after=[], errh=[])
-            req = g.req()
-            if rng.random() < .04:
+        fixed = systematic_cases()
+        stats['systematic'] = len(fixed)
+        for i in range(n + len(fixed)):
+            if i >= n:
+                spec, req = fixed[i - n]
+            else:
+                spec = g.app() if rng.random() < .6 else dict(before=[], after=[], errh=[])
+                req = g.req()
+            if i >= n:
+                pass
+            elif rng.random() < .04:
                 req['path_ok'] = False                     # outside C03's domain, inside the model's
-            if rng.random() < .3 and zoo.json_safe(spec, req):
+            if i < n and rng.random() < .3 and zoo.json_safe(spec, req):
                 req['json'] = True
                 stats['json'] = stats.get('json', 0) + 1
-            if i % 400 == 7:
+            if i < n and i % 400 == 7:
                 # the loop bound: an error handler that keeps answering with the same error
                 code = rng.choice([500, 404, 418])
                 loop = ('r', True, dict(status=code, headers=[], cookies=[]), ('t', 'again'))
@@ -386,6 +447,7 @@ class C03(Check):
             req = dict(id=1, method=rng.choice(['GET', 'HEAD']), fw=rng.random() < .5, path_ok=True, tail='',
                        query='', route=('h', effs, ('ret', o)))
             cases.append((dict(before=[], after=[], errh=[]), req))
+        cases += systematic_cases()
         for spec, req in cases:
             if not self._in_domain(spec, req):
                 continue
